@@ -369,6 +369,7 @@ func (c *C08Case) newModel() (dna.DistModel, error) {
 }
 
 type distRun struct {
+	model  dna.DistModel // the real model the run used (initialised by DistMatrix)
 	mat    [][]float64
 	err    error
 	sr     SchedResult
@@ -404,6 +405,7 @@ func (c *C08Case) runDist(ctx *Ctx, rows []string, weights []float64, cpus int, 
 	if dr.sr.RootDone {
 		dr.mat, dr.err = mat, derr
 	}
+	dr.model = real
 	dr.fired = sm.fired.Get()
 	dr.nd = sm.nd.Get()
 	dr.snapOK = snapshotAlign(al) == before
@@ -545,6 +547,47 @@ func (c08) Run(ctx *Ctx, ci interface{}) (o Outcome) {
 		return
 	}
 	o.Add("fault_free_bit_identical", 1)
+
+	// Assembly of the matrix: the cell of every pair the call covers (all pairs, or range 1 x range 2) is the
+	// model's distance of the two rows, both ways round; every other cell is 0. Pairs whose distance is not an
+	// ordinary number (they get the matrix-wide substitute) are left out.
+	if !faulty && run.mat != nil && run.model != nil {
+		inScope := func(i, j int) bool {
+			if c.Ranges == nil {
+				return true
+			}
+			in := func(x, a, b int) bool { return x >= a && x <= b }
+			r := c.Ranges
+			return (in(i, r[0], r[1]) && in(j, r[2], r[3])) || (in(j, r[0], r[1]) && in(i, r[2], r[3]))
+		}
+		for i := 0; i < n; i++ {
+			for j := 0; j < n; j++ {
+				got := run.mat[i][j]
+				if i == j || !inScope(i, j) {
+					if got != 0 {
+						o.Fail("assembly:cell-outside-scope:DistMatrix", "cell [%d][%d] is %v; it is on the diagonal or outside the requested ranges %v and must be 0", i, j, got, c.Ranges)
+						return
+					}
+					continue
+				}
+				si, e1 := run.model.Sequence(i)
+				sj, e2 := run.model.Sequence(j)
+				if e1 != nil || e2 != nil {
+					continue
+				}
+				a, ea := run.model.Distance(si, sj, c.Weights)
+				b, eb := run.model.Distance(sj, si, c.Weights)
+				if ea != nil || eb != nil || math.IsNaN(a) || math.IsInf(a, 0) || a < 0 || a > 1000 {
+					continue
+				}
+				o.Add("assembly_cells_checked", 1)
+				if math.Float64bits(got) != math.Float64bits(a) && math.Float64bits(got) != math.Float64bits(b) {
+					o.Fail("assembly:cell-differs-from-model:DistMatrix", "cell [%d][%d] is %v; the model's distance of rows %d and %d is %v (ranges %v, model %s)", i, j, got, i, j, a, c.Ranges, c.Model)
+					return
+				}
+			}
+		}
+	}
 
 	// relational clauses, riding on simulated runs under a different schedule
 	if c.Relation == "" || faulty {
